@@ -45,6 +45,52 @@ def regenerate(ctx, required=None):
     return items, changed
 
 
+# ---------------------------------------------------------------------------- driver output
+def parse_sexp(s):
+    toks, i, n = [], 0, len(s)
+    while i < n:
+        c = s[i]
+        if c in "()":
+            toks.append(c)
+            i += 1
+        elif c == " ":
+            i += 1
+        elif c == '"':
+            j = i + 1
+            buf = []
+            while j < n and s[j] != '"':
+                if s[j] == "\\":
+                    j += 1
+                    buf.append("\n" if s[j] == "n" else s[j])
+                else:
+                    buf.append(s[j])
+                j += 1
+            toks.append(("str", "".join(buf)))
+            i = j + 1
+        else:
+            j = i
+            while j < n and s[j] not in "() ":
+                j += 1
+            toks.append(s[i:j])
+            i = j
+
+    def rd(k):
+        if toks[k] == "(":
+            out = []
+            k += 1
+            while toks[k] != ")":
+                v, k = rd(k)
+                out.append(v)
+            return out, k + 1
+        return toks[k], k + 1
+
+    v, k = rd(0)
+    if k != len(toks):
+        raise lib.Infra("driver output not one expression: " + s)
+    return v
+
+
+
 # ---------------------------------------------------------------------------- floats on the wire
 def fbits(x):
     """IEEE-754 bits of a Python float as a decimal UInt64 (exact transport to Lean's Float.ofBits)."""
@@ -64,13 +110,22 @@ def fclose(a, b, tol=1e-9):
     return abs(a - b) <= tol * max(1.0, abs(a), abs(b))
 
 
+def safe_exp(x):
+    """math.exp without OverflowError (a wrong implementation may hand us anything)."""
+    try:
+        return math.exp(x)
+    except OverflowError:
+        return float("inf")
+
+
 def frac(text):
     return Fraction(text)
 
 
 def prob_grid(rng, n_random=6):
     """Decimal texts of probabilities: 0, 1, tiny, near-boundary values, 0.5 and random rationals."""
-    g = ["0", "1", "1e-300", "1e-12", "0.999999999999", "0.5", "1e-9", "0.25", "0.75"]
+    g = ["0", "1", "1e-300", "1e-12", "0.999999999999", "0.5", "1e-9", "0.25", "0.75", "0.999999", "0.99999999", "1e-6",
+         "1e-8"]
     for _ in range(n_random):
         d = rng.choice([1, 2, 3, 6])
         g.append(("%%.%df" % d) % rng.random())
